@@ -7,6 +7,14 @@ TECH_A = "bounded symbolic execution of the real Python code (CrossHair 0.0.110 
 TECH_B = "; plus direct z3 obligations generated from the live source/AST (unbounded in the stated dimension)"
 
 CLAIMED = {
+    "C08": dict(
+        text="Bounded symbolic model checking of locations and normalized paths: (a) for index/slice/name templates with every integer a solver variable (negative indices, reverse slices) on symbolic arrays each node's location is walked from the root and must reach the identical object, with non-negative indices (also asserted inside every C01/C02/C10 obligation); (b) JSONPathNode.path() for symbolic locations (names of up to 2 symbolic characters over all scalar values - quotes, backslash, every control character, DEL, non-BMP, empty - and symbolic non-negative ints, up to 3 keys) equals the RFC 9535 section 2.7 normalized path of the reference; (c) the normalized path of a member with a symbolic name is compiled by the real parser and evaluated on an object holding that member and near-miss members: exactly that node comes back, and paths of array nodes lead back to the node; (d) values()/paths()/items() agree with the nodes.",
+        note="Trusted: CrossHair/z3, M5 json.dumps(str, ensure_ascii=False) model (validated for every scalar value each run), reference normalized path (self-tested against the RFC table 20 examples), equality-scan objects for symbolic member names, guarded bitwise rewrites. Outside: names longer than 2 (3 thorough) characters.",
+        tech=TECH_A, design="§4 C08"),
+    "C10": dict(
+        text="Bounded symbolic model checking of the function bodies and call conversions: Length/Count/Value.__call__ on symbolic arguments of every kind (strings over all code points incl. non-BMP, containers, scalars, nothing; node lists of 0-3 nodes); probe functions with a declared ValueType / LogicalType / NodesType parameter registered on a real environment record what they receive while 33 filter queries (literal, '@' on container and scalar children, '$', singular hitting/missing, non-singular with 0/1/2 results, nested calls, comparisons, negation, parenthesised) are compiled and evaluated by the real code on symbolic children of every JSON kind; the recorded arguments must equal, call by call, what the reference evaluator passes under the RFC conversions, and the selection must equal the reference result.",
+        note="Trusted: CrossHair/z3, reference evaluator with the same probe signatures, floats as reals. Outside: probe functions with more than one parameter (arity and typing are C05's subject).",
+        tech=TECH_A, design="§4 C10"),
     "C01": dict(
         text="Bounded symbolic model checking of structural selection: a filter-free query is built through the public constructors from 30 templates (every selector kind, multi-selector segments with duplicates, child and descendant segments, up to 3 segments) with every index/slice integer a solver variable over +/-(2^53-1) (slice parts present or omitted) and names symbolic choices; the JSON value is a symbolic tree (symbolic shape choices over arrays/objects/scalars, symbolic member names and order, symbolic leaves); the real finditer/resolve code runs on it and the yielded (location, value) sequence must equal the RFC 9535 reference evaluation - same nodes, same order, duplicates kept, identical objects, every location leading from the root to the value. Spelling obligations (any single-character variation of the filter-free seeds that is valid parses to the RFC reading) complete the parse half.",
         note="Trusted: CrossHair/z3, the reference evaluator vtools/ref/evalref.py (self-tested against every example in the repository's tests), M1/M2 slice models. Bounds: documents depth<=2 width<=2 (width 3 for one-level templates), names from a 2-3 name alphabet, int leaves; templates with a slice in a multi-segment/descendant position run in the thorough tier only.",
